@@ -17,7 +17,7 @@ import io
 import itertools
 
 PROP = 'C15'
-TARGETS = ['T15a', 'T15b', 'T15c']
+TARGETS = ['T15a', 'T15b', 'T15c', 'T15d']
 LEAN_MODULES = ['HdVerif.Props.C15']
 MODEL_MODULES = ['HdVerif.Model.SREvidence']
 NAMESPACE = 'HdVerif.C15'
@@ -408,6 +408,16 @@ def _check_doc(ctx, c, reqs, pending):
     probs = _walk_real(doc2.content[0], spec, {})
     if probs:
         ctx.fail(case, {'what': 'parsed .content does not have the constructed structure', 'problems': probs[:5]}, site='srread/content')
+    # attribute level: what the parsed root item carries vs what the given root item carried (model: parseRoot . writeRoot)
+    ROOT_KW = ('ValueType', 'ConceptNameCodeSequence', 'ContinuityOfContent', 'ContentSequence', 'ContentTemplateSequence',
+               'ObservationDateTime', 'ObservationUID')
+    present = list(spec.get('attrs', [])) + (['ContentSequence'] if spec['has_seq'] else [])
+    got_kw = sorted(k for k in ROOT_KW if k in doc2.content[0])
+    if got_kw != sorted(present):
+        ctx.fail(case, {'what': 'parsed root item does not carry the attributes of the given root item', 'got': got_kw,
+                        'want': sorted(present)}, site='srread/root-attributes')
+    reqs.append(('parseRoot', {'present': present}))
+    pending.append((dict(case, what='root attributes'), ('ok', got_kw), 'root'))
     ge2 = [tuple(map(str, t)) for t in doc2.get_evidence()]
     if ge2 != ge:
         ctx.fail(case, 'get_evidence() differs after write/read', site='srread/evidence')
@@ -811,6 +821,8 @@ def _compare(ctx, pending, answers):
             ctx.disagree('L0', case, impl, model, f'{kind}: ok-vs-error')
         elif impl[0] == 'ok' and impl[1] is not None:
             a, b = impl[1], model[1]
+            if kind == 'root':
+                b = sorted(b)
             if isinstance(a, dict) and isinstance(b, dict):
                 keys = sorted(set(a) & set(b))
                 if 'resolved' in keys:
